@@ -124,11 +124,13 @@ def main(tier):
                 ob.result = rr
                 ob.claim = name
         check.states += len(rs)
+    schedule_obligations(check, prog, enums)
     # merge duplicates (the same claim on several paths): report per claim
     sat_claims = {}
     for ob in check.obligations:
         if ob.result.status == 'sat': sat_claims.setdefault(ob.claim, ob)
     for claim, ob in sat_claims.items():
+        if getattr(ob, 'schedule', False): continue
         confirm(check, ob)
     check.transitions = len(check.obligations)
     check.assumptions += ['ECS contract modelled at call level (bevy_model.py): Query iteration / get_mut, Mut deref(_mut), Res<Time>::delta, EventWriter::send; counterexamples are replayed on a real bevy App',
@@ -137,6 +139,63 @@ def main(tier):
                           'Duration::as_secs_f32 uninterpreted (finite, >= 0); frames whose position + delta overflows Duration panic and are not judged here']
     check.samples = [o.words for o in check.obligations[:8]]
     return check.finish(rule='one obligation per (pre-state shape, execution path of animate, clause of the property)')
+
+
+def schedule_obligations(check, prog, enums):
+    """animate::<T> is registered exactly once, in Update, and runs unconditionally (see bevy_schedule.py)"""
+    import bevy_schedule as bs
+    class R: pass
+    def result(status, secs=0.0, model=None):
+        rr = R(); rr.secs = secs; rr.solver = 'z3'; rr.detail = ''; rr.model = model or {}; rr.status = status; return rr
+    recs, calls, problems, m = bs.read_schedule(prog, enums, 'build')
+    check.note_machine(m)
+    for p in problems: check.inconclusive.append('schedule: ' + p)
+    mine = [(label, cfg) for label, cfg in recs if 'animate' in cfg.systems]
+    check.info['schedule'] = [dict(label=l, systems=c.systems, before=c.before, after=c.after, conditions=[bs.text_of(x)[:80] for x in c.conditions], other=c.other) for l, c in recs]
+    ob = check.add(Obligation('C18.schedule.animate-registered-once-in-Update', [], [], words='AnimationPlugin::build registers animate::<T> exactly once, in the Update schedule (read from the symbolic execution of the real build MIR)'))
+    ok = len(mine) == 1 and mine[0][0].replace(' ', '').endswith('bevy::app::Update') and any(c.endswith('add_event') for c in calls)
+    ob.result = result('unsat' if ok else 'sat'); ob.claim = 'schedule'; ob.schedule = True
+    base_model = dict(state=2, enabled=True, new_state=2, has_tl=True, has_tgt=True, claim='ended-at-most-one-frame-late', pos=3.0, delta=0.25, delay=1.0, dur=3.0, x0=7.0)
+    if not ok and not problems:
+        replay_schedule(check, ob, base_model, {}, f'animate::<T> is registered {len(mine)} time(s) in {[l for l, _ in mine]}')
+    for label, cfg in mine:
+        for cond in cfg.conditions:
+            res, problems = bs.condition_can_be_false(prog, enums, cond)
+            for p in problems: check.inconclusive.append('schedule: ' + p)
+            if res is None: continue
+            paths, fresh, cname, cm = res
+            check.note_machine(cm)
+            for i, (pc, ret) in enumerate(paths):
+                ob = check.add(Obligation(f'C18.schedule.run-condition[{cname}].path{i}.always-true', [], [], words=f'the run condition `{cname}` attached to animate::<T> holds for every state of the resources it reads (a frame in which it is false is a frame in which the animator neither advances nor changes state)'))
+                s_ = z3.Solver(); s_.set('timeout', 30000); s_.add(*pc); s_.add(z3.Not(ret))
+                t0 = time.time(); c = s_.check()
+                ob.claim = 'schedule'; ob.schedule = True
+                if c == z3.unsat: ob.result = result('unsat', time.time() - t0); continue
+                if c != z3.sat: ob.result = result('unknown', time.time() - t0); continue
+                mdl = s_.model()
+                wit = {k: (z3.is_true(mdl.eval(v, model_completion=True)) if z3.is_bool(v) else mdl.eval(v, model_completion=True).as_long()) for k, v in fresh.items()}
+                ob.result = result('sat', time.time() - t0, dict(wit))
+                replay_schedule(check, ob, base_model, wit, f'run condition `{cname}` is false for resource state {wit}')
+
+
+def replay_schedule(check, ob, mv, wit, what):
+    """a frame in which animate does not run, on a real App: the resource state of the witness, pre-states in which a transition is due"""
+    extra = {}
+    if wit.get('is_paused') or wit.get('paused'): extra['paused'] = True
+    if 'delta' in wit: extra['delta'] = wit['delta'] / 1e9
+    try:
+        cases = []
+        for st, pos in ((2, 3.0), (2, 5.0), (1, 1.5), (0, 0.0), (2, 1.5)):
+            cases.append(dict(kind='bevy_step', pre_state=st, enabled=True, has_tl=True, has_tgt=True, pos=pos, delta=extra.get('delta', 0.25), delay=1.0, dur=3.0, x0=7.0, **{k: v for k, v in extra.items() if k != 'delta'}))
+        nats = run_replay(cases, 'dev', 'replay_bevy', timeout=900)
+        check.traces_validated += len(nats)
+        for case, nat in zip(cases, nats):
+            if nat.get('violated'):
+                check.report_violation(ob.name, None, f'{what}; on a real App: {nat.get("claims")}: {nat.get("detail")}', case)
+                return
+        check.inconclusive.append(f'{ob.name}: {what}, but no clause of the property failed on the real App for the tried pre-states')
+    except Exception as e:
+        check.inconclusive.append(f'{ob.name}: bevy step replay unavailable ({e})')
 
 
 def fpnum(v):
